@@ -253,4 +253,33 @@ example : mk "/sys/fs/cgroup/".toList "//a//b/".toList
 example : prefixMatch (mk [] "a/b".toList) (mk [] "a/*/c".toList) = true := by decide
 example : prefixMatch (mk [] "a/b".toList) (mk [] "a/b*".toList) = false := by decide
 
+/-! ### bracket expressions and escapes of the component matcher -/
+
+/-- A bracket expression matches exactly one character, and exactly the characters it lists (or, negated, the others);
+the text of a complete expression followed by the rest of the pattern: -/
+theorem bracket_matches_one_listed_char (body rest : Str) (c : Char) (cs : Str) (n : Nat)
+    (hn : closeIdx (body ++ ']' :: rest) = some n) :
+    fnm ('[' :: (body ++ ']' :: rest)) (c :: cs) =
+      (classMatch ((body ++ ']' :: rest).take n) c && fnm ((body ++ ']' :: rest).drop (n + 1)) cs) := by
+  rw [fnm.eq_def]
+  simp only [hn]
+
+/-- no bracket expression matches the empty string -/
+theorem bracket_needs_a_char (ps : Str) : fnm ('[' :: ps) [] = false :=
+  fnm_cons_nil '[' ps (by decide)
+
+/-- concrete readings (membership, ranges, negation with `!` and `^`, a leading `]`, a trailing `-`, an unterminated `[`
+taken literally, a backslash making the next character literal) -/
+theorem bracket_and_escape_examples :
+    fnm "[ab]c".toList "ac".toList = true ∧ fnm "[ab]c".toList "bc".toList = true ∧ fnm "[ab]c".toList "cc".toList = false ∧
+    fnm "[a-c]".toList "b".toList = true ∧ fnm "[a-c]".toList "d".toList = false ∧
+    fnm "[!a]".toList "b".toList = true ∧ fnm "[!a]".toList "a".toList = false ∧ fnm "[^a]".toList "a".toList = false ∧
+    fnm "[]a]".toList "]".toList = true ∧ fnm "[a-]".toList "-".toList = true ∧
+    fnm "[a".toList "[a".toList = true ∧ fnm "[a".toList "a".toList = false ∧
+    fnm "\\*".toList "*".toList = true ∧ fnm "\\*".toList "x".toList = false ∧
+    fnm "job[0-9]".toList "job7".toList = true ∧ fnm "job[0-9]".toList "jobs".toList = false := by
+  set_option linter.unusedSimpArgs false in
+  refine ⟨?_, ?_, ?_, ?_, ?_, ?_, ?_, ?_, ?_, ?_, ?_, ?_, ?_, ?_, ?_, ?_⟩ <;>
+    simp [fnm, closeIdx, firstClose, classMatch, classItems]
+
 end C16
